@@ -92,7 +92,7 @@ theorem stepM_refines (M : F64Mod K) (wf : WF M.N hsz vars) (o : OpD) (a : AStat
     rw [hc]
     exact dvec_upd M a β s d _ _ δn r2 (vmp_metric M x.size d.size _ Mv m.nrows m.ncols δn hδ0 hb) v P hv
   | vmpDD d x m =>
-    obtain ⟨hδ0, P, Mv, hP, hm, hb⟩ := hpre
+    obtain ⟨-, hδ0, P, Mv, hP, hm, hb⟩ := hpre
     refine ⟨r1, fun v Q hv => ?_, r3, r4⟩
     simp only [astepD, cstepD, bstep, hP, hm, Option.getD_some] at hv ⊢
     rw [r4 m Mv hm]
